@@ -350,7 +350,55 @@ def c10(rep, tier):
     if 'text' not in deps_tok:
         why.append('does not depend on the temporary\'s own text (#n)')
     if not has_pass:
-        why.append('does not depend on the pass number: expansions share temporaries')
+        # another source of per-expansion uniqueness?  a counter kept in storage reached through a parameter
+        counters = []
+        for x in walk_expr(text_e):
+            if x.get('k') == 'ref' and x.get('dk') == 'var':
+                for dd in mm.M.defs(gr).get(x.get("d"), []):
+                    d = dd[1]
+                    if d is None:
+                        continue
+                    for y in walk_expr(d):
+                        if y.get('k') == 'un' and y['op'] in ('++', '--'):
+                            counters.append(y)
+            if x.get('k') == 'un' and x['op'] in ('++', '--'):
+                counters.append(x)
+        verdict = None
+        for cexp in counters:
+            root, path = field_chain(cexp['e'])
+            root = strip_casts(root) if root is not None else None
+            pidx = [i for i, p in enumerate(gr['params']) if root is not None and root.get('d') == p.get('d')]
+            callsites = [e for e in walk_all_exprs(mm.am['body']) if is_call(e, 'get_replacement')]
+            if not pidx or len(callsites) != 1 or len(callsites[0]['args']) <= pidx[0]:
+                continue
+            if '&' not in gr['params'][pidx[0]]['cty']:
+                verdict = 'the per-expansion counter %s lives in a by-value parameter: every call starts from the same value, expansions share temporaries' % show(cexp['e'])
+                break
+            # storage the argument refers to: *it with it = min_element(X.begin(), ...)  ->  X
+            a = strip_casts(callsites[0]['args'][pidx[0]])
+            while a is not None and (a.get('k') == 'un' and a['op'] == '*' or is_call(a, '::operator*')):
+                a = strip_casts(a.get('e') or a.get('obj') or (a['args'][0] if a.get('args') else None))
+            a = mm.M.origin(mm.am, a) if a is not None else None
+            store = None
+            for y in (walk_expr(a) if a is not None else []):
+                if is_call(y, '::begin') and y.get('obj') is not None and strip_casts(y['obj']).get('k') == 'ref':
+                    store = strip_casts(y['obj'])
+                    break
+            if store is None and a is not None and a.get('k') == 'ref':
+                store = a
+            if store is not None:
+                inside = any(st['k'] == 'decl' and any(v.get('d') == store.get('d') for v in st['vars']) for st in walk_stmts(mm.budget['body']))
+                if inside:
+                    verdict = ('the per-expansion counter %s is kept in %s, which is created afresh inside every pass of the budget loop: the '
+                               'increment is lost and every expansion of the macro gets the same number, so expansions share temporaries' % (show(cexp['e']), store.get('name')))
+                    break
+        if verdict:
+            why.append(verdict)
+        elif counters:
+            A.unknown('get_replacement: temporary name', 'uniqueness source is not the pass number but a counter whose storage could not be classified')
+            return
+        else:
+            why.append('does not depend on the pass number: expansions share temporaries')
     extra = sorted(deps_tok - {'text'})
     if extra:
         why.append('depends on per-token attribute(s) %s of the body token: one #n splits into several variables when the body spans '
@@ -363,7 +411,11 @@ def c10(rep, tier):
     Cc.check(kind_ok, 'get_replacement: kind', 'next.t = ID', 'the renamed token keeps kind TEMP_VAL', W(gr, None, mm.facts))
     calls = [e for e in walk_all_exprs(mm.am['body']) if is_call(e, 'get_replacement')]
     cv = counter_of(mm.budget)
-    okd = len(calls) == 1 and cv is not None and strip_casts(calls[0]['args'][1]).get('d') == cv['d']
+    if not passp:
+        D.unknown('apply_macros: pass argument', 'get_replacement takes no pass number: uniqueness mechanism differs from the one this rule knows')
+        return
+    pi = [i for i, p in enumerate(gr['params']) if p.get('d') == passp[0]['d']][0]
+    okd = len(calls) == 1 and cv is not None and len(calls[0]['args']) > pi and strip_casts(calls[0]['args'][pi]).get('d') == cv['d']
     # ... and the instantiation happens once per counted pass: it is enclosed by the budget loop and the priority-bin loop only
     if calls:
         def loops_around(root, target, acc=()):
@@ -382,7 +434,7 @@ def c10(rep, tier):
         D.check(not extra, 'apply_macros: one instantiation per pass number', 'get_replacement is enclosed by the budget loop and the bin loop only',
                 'get_replacement runs inside a further loop (line %s): several expansion steps share one pass number and hence their temporaries' % (extra[0]['loc'][0] if extra else ''),
                 W(mm.am, calls[0], mm.facts))
-    D.check(okd, 'apply_macros: pass argument', 'get_replacement(..., %s)' % (cv['name'] if cv else '?'), 'pass argument is %s' % (show(calls[0]['args'][1]) if calls else None),
+    D.check(okd, 'apply_macros: pass argument', 'get_replacement(..., %s)' % (cv['name'] if cv else '?'), 'pass argument is %s' % (show(calls[0]['args'][pi]) if calls and len(calls[0]['args']) > pi else None),
             W(mm.am, calls[0] if calls else None, mm.facts))
 
 
@@ -529,19 +581,41 @@ def c09(rep, tier):
     ctor = mm.facts.fn('MacroDetector::MacroDetector')
     rep.analysed(pr, ctor)
     constrained, slots = set(), set()
+    from .enumeval import EnumEval, Unsupported as EUnsupported
+    kinds = [n for n, _ in mm.facts.enum('Theo::Token::Type')['enumerators']]
+    # the classified kind: <local copy of the current token>.t  or  es.tokens[es.tok_pos].t
+    tokvars = set()
     for st in walk_stmts(pr['body']):
-        if st['k'] == 'switch':
-            for c in st['cases']:
-                labs = [l.get('name') for l in c['labels'] if isinstance(l, dict)]
-                txt = ' '.join(show(e) for s in c['s'] for e in walk_all_exprs(s))
-                if 'content_constraint_token_indices' in txt:
-                    constrained |= set(labs)
-                if 'template_token_indices' in txt:
-                    slots |= set(labs)
+        if st['k'] == 'decl':
+            for v in st['vars']:
+                if (v.get('cty') or '').replace('const ', '').replace(' &', '') in ('Theo::Token', 'Token') and v.get('init') is not None and 'tok_pos' in show(v['init']):
+                    tokvars.add(v['d'])
+
+    def is_subject(x, env):
+        if x is None or x.get('k') != 'member' or x.get('name') != 't':
+            return False
+        b = strip_casts(x['base'])
+        return (b.get('k') == 'ref' and b.get('d') in tokvars) or 'tokens[es.tok_pos]' in show(b)
+    try:
+        tbl = EnumEval(mm.facts, is_subject, lambda c: is_call(c, '::push_back')).table(pr, kinds)
+        for K, effs in tbl.items():
+            for c in effs:
+                t = show(c['obj'])
+                if 'content_constraint_token_indices' in t:
+                    constrained.add(K)
+                if 'template_token_indices' in t:
+                    slots.add(K)
+    except EUnsupported as ex:
+        F.unknown('push_rule: kind tables', 'classification of pattern tokens not evaluated: %s' % ex, W(pr, None, mm.facts))
+        constrained, slots = set(), set()
     if not constrained and not slots:
-        F.unknown('push_rule: kind tables', 'push_rule does not classify the pattern tokens with a switch over their kind: tables not recognised', W(pr, None, mm.facts))
+        F.unknown('push_rule: kind tables', 'push_rule does not classify the pattern tokens by their kind: tables not recognised', W(pr, None, mm.facts))
     else:
-        F.check(constrained == {'ID', 'NV_ID', 'INT'}, 'push_rule: text-constrained kinds', sorted(constrained), 'text-constrained kinds are %s' % sorted(constrained), W(pr, None, mm.facts))
+        extra = sorted(constrained - {'ID', 'NV_ID', 'INT'})
+        missing = sorted({'ID', 'NV_ID', 'INT'} - constrained)
+        F.check(constrained == {'ID', 'NV_ID', 'INT'}, 'push_rule: text-constrained kinds', 'evaluated for all %d token kinds: %s' % (len(kinds), sorted(constrained)),
+                'text-constrained kinds are wrong: %s%s' % (('kinds %s also have to match by text although the scanner gives several spellings one kind; ' % extra[:6]) if extra else '',
+                                                            ('kinds %s match any text' % missing) if missing else ''), W(pr, None, mm.facts))
     dslots = {}
     for f in mm.facts.functions:
         if f['kind'] == 'lambda' and f.get('parent', '').startswith('MacroDetector::MacroDetector'):
@@ -588,29 +662,91 @@ def c12(rep, tier):
     rep.note_facts(mm.facts)
     am = mm.am
     A = rep.rule('C12.a', 'a detector reports MACRO_COMPILE_NON_LR at its first pattern token exactly when table generation reported a conflict', floor=1)
-    ge = mm.facts.fn('MacroDetector::getErrors')
-    rep.analysed(ge)
-    g = mm.M.cfg(ge)
-    pb = [ev for ev in g.calls() if is_call(ev.e, '::push_back')]
-    ok = False
-    why = 'error construction not found'
-    if len(pb) == 1:
-        guards = g.guards_of(pb[0])
-        gd = [(show(c).replace('this->', ''), l) for c, l, cn in guards]
-        ok = gd == [('!gen_res.empty()', True)] or gd == [('gen_res.empty()', False)]
-        txt = show(pb[0].e)
-        ok = ok and 'MACRO_COMPILE_NON_LR' in txt and 'rule.begin()' in txt and '->file' in txt and '->line' in txt
-        why = 'guards %s, record %s' % (gd, txt[:80])
-        rets = [s for s in walk_stmts(ge['body']) if s['k'] == 'return']
-        ok = ok and len(rets) == 1
-    A.check(ok, 'getErrors', 'non-empty iff gen_res non-empty; type MACRO_COMPILE_NON_LR; location of the first pattern token', why, W(ge, None, mm.facts))
+    non_lr_error_rule(mm, rep, A)
+    G2 = rep.rule('C12.g', 'on every path through the detector\'s constructor the conflict list is the result of generating the tables of the parser '
+                           'the detector then uses (no path installs a parser without its verdict)', floor=1)
+    ctor = mm.facts.fn('MacroDetector::MacroDetector')
+    rep.analysed(ctor)
+    gc = mm.M.cfg(ctor)
+    gens = []
+    for ev in gc.events:
+        e = ev.e
+        tgt = val = None
+        if e.get('k') == 'call' and (e.get('callee') or '').endswith('::operator=') and e.get('obj') is not None and e.get('args'):
+            tgt, val = strip_casts(e['obj']), strip_conv(e['args'][0])
+        elif e.get('k') == 'assign':
+            tgt, val = strip_casts(e['l']), strip_conv(e['r'])
+        if tgt is not None and tgt.get('k') == 'member' and tgt.get('name') == 'gen_res' and is_call(val, '::generateParseTables'):
+            gens.append((ev, val))
+    if len(gens) != 1:
+        G2.unknown('MacroDetector: verdict', '%d assignment(s) gen_res = <parser>.generateParseTables() found in the constructor' % len(gens))
+    else:
+        ev, val = gens[0]
+        pobj = show(strip_casts(val['obj'])).replace('this->', '')
+        parser_writes = [w for w in gc.events if ((w.e.get('k') == 'call' and (w.e.get('callee') or '').endswith('::operator=') and w.e.get('obj') is not None and
+                                                   show(strip_casts(w.e['obj'])).replace('this->', '') == pobj) or
+                                                  (w.e.get('k') == 'assign' and show(strip_casts(w.e['l'])).replace('this->', '') == pobj))]
+        late = [w for w in parser_writes if gc.can_follow(ev, w) and not gc.dominates(w, ev)]
+        other_gen_writes = [w for w in gc.events if w is not ev and 'gen_res' in show(w.e.get('obj') or w.e.get('l') or {}) and
+                            ((w.e.get('k') == 'call' and (w.e.get('callee') or '').split('::')[-1] in ('operator=', 'push_back', 'insert', 'assign', 'swap')) or w.e.get('k') == 'assign')]
+        if (ev.conditional or not gc.on_all_paths(ev)) and other_gen_writes:
+            G2.unknown('MacroDetector: verdict', 'the conflict list is also written at line %s: paths that skip table generation may still carry a verdict' % other_gen_writes[0].e['loc'][0])
+        elif ev.conditional or not gc.on_all_paths(ev):
+            rets = [n for n in gc.returns() if ev.node.id not in gc.dom[n.id]]
+            G2.violation('MacroDetector: verdict', 'a path through the constructor (return at line %s) never generates the tables: the conflict list stays empty and the '
+                         'detector counts as deterministic whatever its pattern' % (rets[0].stmt['loc'][0] if rets and rets[0].stmt.get('loc') else '?'), W(ctor, rets[0].stmt if rets else None, mm.facts))
+        elif late:
+            G2.violation('MacroDetector: verdict', 'the parser is replaced after its tables were generated (line %s): the verdict belongs to another parser' % late[0].e['loc'][0], W(ctor, late[0].e, mm.facts))
+        else:
+            G2.ok('MacroDetector: verdict', 'gen_res = %s.generateParseTables() on every path; %s is not replaced afterwards' % (pobj, pobj), W(ctor, ev.e, mm.facts))
     B = rep.rule('C12.b', 'only detectors without error reach the priority bins', floor=1)
     gam = mm.M.cfg(am)
     pname = prios_name(am)
 
-    def errors_empty(c):
-        t = show(c).replace(' ', '')
-        return (is_call(c, '::empty') or (c.get('k') == 'bin' and c['op'] == '==' and 'size()' in t and t.endswith('==0)'))) and ('err' in t.lower())
+    def no_conflict(c, depth=0):
+        """+1: c is true iff the detector has no conflict error; -1: true iff it has one; None: unrelated/unknown"""
+        c = strip_casts(c)
+        if c is None or depth > 5:
+            return None
+        if c.get('k') == 'paren':
+            return no_conflict(c['e'], depth)
+        if c.get('k') == 'un' and c['op'] == '!':
+            v = no_conflict(c['e'], depth)
+            return None if v is None else -v
+        t = show(c).replace(' ', '').lower()
+        about = 'err' in t or 'gen_res' in t
+        if is_call(c, '::empty') and about:
+            return 1
+        if c.get('k') == 'bin' and c['op'] in ('==', '!=', '>', '<', '>=', '<=') and 'size()' in t and about:
+            l, r = strip_casts(c['l']), strip_casts(c['r'])
+            if is_call(l, '::size') and r.get('k') == 'int':
+                op, v = c['op'], r['v']
+            elif is_call(r, '::size') and l.get('k') == 'int':
+                op, v = {'<': '>', '>': '<', '<=': '>=', '>=': '<=', '==': '==', '!=': '!='}[c['op']], l['v']
+            else:
+                return None
+            if (op, v) in (('==', 0), ('<', 1), ('<=', 0)):
+                return 1
+            if (op, v) in (('>', 0), ('!=', 0), ('>=', 1)):
+                return -1
+            return None
+        if c.get('k') == 'call' and c.get('obj') is not None and 'MacroDetector' in (strip_casts(c['obj']).get('cty') or '') and not c.get('args'):
+            g = mm.facts.fn(c.get('callee'), optional=True)
+            if g is not None and g.get('body') is not None:
+                rets = [x for x in walk_stmts(g['body']) if x['k'] == 'return' and x.get('e') is not None]
+                others = [x for x in walk_stmts(g['body']) if x['k'] not in ('return', 'block')]
+                if len(rets) == 1 and not others:
+                    return no_conflict(rets[0]['e'], depth + 1)
+        return None
+
+    def errors_empty_guard(guards):
+        for cond, label, cn in guards:
+            if not isinstance(label, bool):
+                continue
+            v = no_conflict(cond)
+            if v is not None and ((v == 1) == label):
+                return True
+        return False
     lists = {}      # did -> True when every push into that detector list is guarded by "no errors"
     direct_ok = []
     for ev in gam.calls():
@@ -620,7 +756,7 @@ def c12(rep, tier):
         if 'MacroDetector' not in (e['obj'].get('cty') or ''):
             continue
         tgt = strip_casts(e['obj'])
-        g_ok = any(label is True and errors_empty(strip_casts(cond)) for cond, label, cn in gam.guards_of(ev))
+        g_ok = errors_empty_guard(gam.guards_of(ev))
         if tgt.get('k') == 'ref' and tgt.get('dk') == 'var':
             lists[tgt['d']] = lists.get(tgt['d'], True) and g_ok
             if g_ok:
@@ -637,17 +773,24 @@ def c12(rep, tier):
         a0 = strip_conv(e['args'][0])
         if is_call(a0, '::begin'):
             srcs.append(strip_casts(a0['obj']))
-    for st in walk_stmts(am['body']):
-        if st['k'] == 'rangefor' and 'MacroDetector' in (st['range'].get('cty') or ''):
-            unguarded_here = False
-            for ev in gam.calls():
-                e = ev.e
-                if (is_call(e, '::push_back') or is_call(e, '::emplace_back') or is_call(e, '::insert')) and e.get('obj') is not None and pname and pname in show(e['obj']) \
-                        and any(x is e for x in walk_all_exprs(st['body'])):
-                    if not any(label is True and errors_empty(strip_casts(cond)) for cond, label, cn in gam.guards_of(ev)):
-                        unguarded_here = True
-            if unguarded_here:
-                srcs.append(strip_casts(st['range']))
+    for ev in gam.calls():
+        e = ev.e
+        if not ((is_call(e, '::push_back') or is_call(e, '::emplace_back') or is_call(e, '::insert')) and e.get('obj') is not None and pname and pname in show(e['obj'])):
+            continue
+        if errors_empty_guard(gam.guards_of(ev)):
+            continue
+        # an unguarded push into a bin: the pushed detector comes from a list, which must be a guarded one
+        src = None
+        for st in walk_stmts(am['body']):
+            if st['k'] == 'rangefor' and 'MacroDetector' in (st['range'].get('cty') or '') and any(x is e for x in walk_all_exprs(st['body'])):
+                if any(x.get('k') == 'ref' and x.get('d') == st['var']['d'] for a in e['args'] for x in walk_expr(a)):
+                    src = strip_casts(st['range'])
+        if src is None:
+            for a in e['args']:
+                for x in walk_expr(a):
+                    if is_call(x, '::operator[]') and 'MacroDetector' in (strip_casts(x['obj']).get('cty') or '') and strip_casts(x['obj']).get('k') == 'ref':
+                        src = strip_casts(x['obj'])
+        srcs.append(src)
     for src in srcs:
         if src is not None and src.get('k') == 'ref':
             okb = lists.get(src.get('d')) is True
@@ -656,11 +799,21 @@ def c12(rep, tier):
     if not srcs and not direct_ok:
         B.unknown('apply_macros: bins', 'cannot see how detectors reach the priority bins')
     Cc = rep.rule('C12.c', 'the loop collecting detector errors has no early exit (a rejected macro does not stop the others)', floor=1)
-    okc = False
+    coll = None
     for st in walk_stmts(am['body']):
-        if st['k'] == 'rangefor' and any(is_call(e, 'MacroDetector::getErrors') for e in walk_all_exprs(st['body'])):
-            okc = not [x for x in walk_stmts(st['body']) if x['k'] in ('break', 'return', 'continue')]
-    Cc.check(okc, 'apply_macros: error collection', 'no break/return/continue', 'error collection can stop early', W(am, None, mm.facts))
+        if st['k'] in ('rangefor', 'for', 'while') and coll is None:
+            txt = ' '.join(show(e) for e in walk_all_exprs(st['body']))
+            if 'getErrors' in txt or 'MACRO_COMPILE_NON_LR' in txt or ('errors' in txt and 'MacroDetector' in show(st.get('range') or st.get('c') or {}) + (st.get('range') or {}).get('cty', '')):
+                coll = st
+    if coll is None:
+        Cc.unknown('apply_macros: error collection', 'the loop collecting the detector errors was not found')
+    else:
+        exits = [x for x in walk_stmts(coll['body']) if x['k'] in ('break', 'return')]
+        # a break that belongs to an inner loop or switch does not leave the collecting loop
+        inner = [x for y in walk_stmts(coll['body']) if y['k'] in ('for', 'rangefor', 'while', 'do', 'switch') for x in walk_stmts(y.get('body') or {'k': 'block', 's': [z for c in y.get('cases', []) for z in c['s']]}) if x['k'] == 'break']
+        exits = [x for x in exits if not any(x is y for y in inner)]
+        Cc.check(not exits, 'apply_macros: error collection', 'the collecting loop (line %s) has no break/return' % coll['loc'][0],
+                 'error collection can stop early (line %s): the detectors after a rejected one are neither checked nor used' % (exits[0]['loc'][0] if exits else ''), W(am, exits[0] if exits else None, mm.facts))
     D = rep.rule('C12.d', 'every write to a parse-table cell sits in the fall-through branch of a switch on that cell\'s kind whose '
                           'other cases record a conflict', floor=3)
     gen_lams = [f for f in mm.facts.functions if f['kind'] == 'lambda' and 'generateParseTables' in f.get('parent', '') and f['tmpl'] in ('none', 'inst')]
@@ -958,6 +1111,134 @@ def prefix_columns_rule(mm, E, f, lams):
     elif kinds_full and kinds_full != {'REDUCE', 'ACCEPT'}:
         E.violation('generateParseTables: prefix mode', 'only %s actions are spread over every column in prefix mode' % sorted(kinds_full),
                     'Compiler/include/ParserGenerator/lrparser.hpp')
+
+
+def non_lr_error_rule(mm, rep, A):
+    """The MACRO_COMPILE_NON_LR record: built under "gen_res is not empty", located at the first pattern token, in whichever
+    member function of MacroDetector builds it (getErrors at the pinned commit)."""
+    methods = [f for f in mm.facts.functions if f['q'].startswith('MacroDetector::') and f.get('body') is not None and
+               not f['q'].split('::')[-1].startswith('lambda@')]
+    sites = []
+    for f in methods:
+        for e in walk_all_exprs(f['body']):
+            if (is_call(e, '::push_back') or is_call(e, '::emplace_back')) and 'MACRO_COMPILE_NON_LR' in show(e):
+                sites.append((f, e))
+    if not sites:
+        # built outside the detector: the location then has to be found through some correspondence between detectors and definitions
+        outside = []
+        for f in mm.facts.functions:
+            if f.get('body') is None or not f['file'].endswith('macro.cpp') or f['q'].startswith('MacroDetector::'):
+                continue
+            for e in walk_all_exprs(f['body']):
+                if (is_call(e, '::push_back') or is_call(e, '::emplace_back')) and 'MACRO_COMPILE_NON_LR' in show(e):
+                    outside.append((f, e))
+        gd = mm.facts.fn('get_detectors', optional=True)
+        for f, e in outside:
+            srcs = [mm.M.origin(f, x) for x in walk_expr(e) if x.get('k') == 'ref' and x.get('dk') == 'var']
+            txt = show(e) + ' ' + ' '.join(show(x) for x in srcs if x is not None)
+            if 'definitions[' in txt and gd is not None:
+                reorder = [x for x in walk_all_exprs(gd['body']) if x.get('k') == 'call' and (x.get('callee') or '').split('::')[-1] in
+                           ('sort', 'stable_sort', 'reverse', 'rotate', 'shuffle', 'partition', 'stable_partition', 'erase', 'insert', 'swap', 'iter_swap', 'nth_element', 'partial_sort')]
+                if reorder:
+                    A.violation('%s: conflict error' % f['q'].split('::')[-1], 'the error of detector i is located at definitions[i], but get_detectors reorders its result (%s, line %s): '
+                                'detector i is no longer built from definition i, so the error names another definition' % (reorder[0]['callee'].split('::')[-1], reorder[0]['loc'][0]),
+                                W(f, e, mm.facts))
+                    return
+    if len(sites) != 1:
+        A.unknown('MacroDetector: conflict error', '%d construction(s) of the MACRO_COMPILE_NON_LR record found in MacroDetector' % len(sites))
+        return
+    f, e = sites[0]
+    rep.analysed(f)
+    g = mm.M.cfg(f)
+    ev = g.ev(e)
+
+    def size_table(c):
+        """truth of c for gen_res.size() = 0, 1, 2, 3; None when c is not a test of the size of gen_res"""
+        c = strip_casts(c)
+        if c is None:
+            return None
+        if c.get('k') == 'paren':
+            return size_table(c['e'])
+        if c.get('k') == 'un' and c['op'] == '!':
+            v = size_table(c['e'])
+            return None if v is None else [not x for x in v]
+        if is_call(c, '::empty') and 'gen_res' in show(c['obj']):
+            return [True, False, False, False]
+        if c.get('k') == 'bin' and c['op'] in ('<', '>', '<=', '>=', '==', '!='):
+            l, r = strip_casts(c['l']), strip_casts(c['r'])
+            import operator as _o
+            ops = {'<': _o.lt, '>': _o.gt, '<=': _o.le, '>=': _o.ge, '==': _o.eq, '!=': _o.ne}
+            if is_call(l, '::size') and 'gen_res' in show(l['obj']) and r.get('k') == 'int':
+                return [ops[c['op']](n, r['v']) for n in range(4)]
+            if is_call(r, '::size') and 'gen_res' in show(r['obj']) and l.get('k') == 'int':
+                return [ops[c['op']](l['v'], n) for n in range(4)]
+        if c.get('k') == 'bin' and c['op'] in ('&&', '||'):
+            a, b2 = size_table(c['l']), size_table(c['r'])
+            if a is not None and b2 is not None:
+                return [(x and y) if c['op'] == '&&' else (x or y) for x, y in zip(a, b2)]
+        return None
+    verdicts = []
+    reach = [True, True, True, True]     # for which sizes of gen_res the construction is reached
+    unrec = False
+    for cond, label, cn in g.guards_of(ev):
+        if not isinstance(label, bool):
+            continue
+        tb = size_table(cond)
+        if tb is None:
+            unrec = True
+            continue
+        reach = [r and (t == label) for r, t in zip(reach, tb)]
+    if not all(reach[1:]):
+        verdicts = ['partial']          # further (unrecognised) guards can only restrict more
+    elif reach == [False, True, True, True]:
+        verdicts = [True]
+    elif unrec:
+        verdicts = [None]               # reached for size 0 unless the unrecognised guard excludes it
+    elif reach == [True] * 4 and not any(isinstance(l, bool) for c, l, cn in g.guards_of(ev)):
+        verdicts = []
+    else:
+        verdicts = [False]
+    txt = show(e).replace('this->', '')
+    first = any(p in txt for p in ('rule.begin()->file', 'rule.front().file', 'rule[0].file', 'rule.at(0).file')) and \
+        any(p in txt for p in ('rule.begin()->line', 'rule.front().line', 'rule[0].line', 'rule.at(0).line'))
+    other_pos = any(p in txt for p in ('rule.back()', 'rule.end()', 'rule.rbegin()', 'replacement'))
+    inst = '%s: conflict error' % f['q'].split('::')[-1]
+    where = W(f, e, mm.facts)
+    if ev.conditional:
+        A.unknown(inst, 'error constructed inside a conditional expression')
+    elif 'partial' in verdicts:
+        A.violation(inst, 'the error is not reported for every non-empty conflict list (missed when gen_res.size() is %s)' % [n for n in (1, 2, 3) if not reach[n]], where)
+    elif False in verdicts:
+        A.violation(inst, 'the error is reported when table generation found NO conflict (guard polarity)', where)
+    elif True not in verdicts and not verdicts:
+        A.violation(inst, 'the error is reported unconditionally: every macro is rejected as non-LR', where)
+    elif True not in verdicts:
+        A.unknown(inst, 'guard of the error construction not recognised: %s' % [show(c)[:60] for c, l, cn in g.guards_of(ev)])
+    elif other_pos and not first:
+        A.violation(inst, 'the error is not located at the first pattern token: %s' % txt[:120], where)
+    elif not first:
+        A.unknown(inst, 'location of the error not recognised: %s' % txt[:120])
+    else:
+        stale = None
+        is_ctor = f['q'].split('::')[-1] == 'MacroDetector' or f.get('kind') == 'ctor'
+        if is_ctor:
+            # built once at construction: the definition of a detector must then never be replaced afterwards
+            for f2 in mm.facts.functions:
+                if f2.get('body') is None or f2 is f:
+                    continue
+                for x in walk_all_exprs(f2['body']):
+                    tgt = None
+                    if x.get('k') == 'call' and (x.get('callee') or '').endswith('::operator=') and x.get('obj') is not None:
+                        tgt = strip_casts(x['obj'])
+                    elif x.get('k') == 'assign':
+                        tgt = strip_casts(x['l'])
+                    if tgt is not None and tgt.get('k') == 'member' and tgt.get('name') == 'md' and 'MacroDetector' in (strip_casts(tgt.get('base') or {}).get('cty') or ''):
+                        stale = (f2, x)
+        if stale:
+            A.violation(inst, 'the error is built once in the constructor, but %s later replaces the detector\'s definition (%s): the stored error keeps the '
+                        'position of another definition' % (stale[0]['q'], show(stale[1])[:60]), W(stale[0], stale[1], mm.facts))
+        else:
+            A.ok(inst, 'built only when gen_res is non-empty; type MACRO_COMPILE_NON_LR; location of the first pattern token', where)
 
 
 def prios_name(am):
